@@ -21,9 +21,9 @@ import (
 
 func init() {
 	eng.Register(&eng.Check{
-		ID: "C12",
-		Rule: "E3 schedule explorer on the real code (stateless, depth-first, preemption-bounded; hand-written cooperative scheduler): k threads each perform m calls of Evaluate / Execute on ONE shared evaluator / filter (or create evaluators concurrently); the visible operations are the accesses hooked by the generated overlay (every read/write of a field of the packages' own struct types reached through a pointer, of a package-level variable, map element writes) and all sync / sync/atomic operations (shimmed). A site becomes a scheduling point when its address is touched by >=2 threads with >=1 write during the concurrent phase; exploration restarts until this hot set reaches a fixpoint. Scenarios: expressions with one and two matches / not matches nodes (also behind short-circuits, inside quantifiers, with unknown-value and hook options), ==, in, quantifiers; shared and distinct data; first use and steady state; 2x1, 2x2, 3x1 threads x calls with UNBOUNDED preemptions, 3x2 with preemption bound 2 (thorough 3). Oracle in every explored state: data race = two threads parked with enabled pending conflicting plain accesses to one address; every call's result equals the sequential result; deadlock = no enabled thread; a violating schedule is replayed twice and must reproduce. states = complete schedules executed, transitions = visible operations executed; non-trivial = schedules with at least one scheduling decision beyond thread order. Complement (sampling, not deciding): the same scenario bodies run free under `go build -race` without the overlay.",
-		Assumptions: []string{"sequential consistency at hooked accesses and sync operations; accesses inside dependencies, weak-memory effects and goroutines started by the code under test are outside the model (the free-running -race pass is the stated complement)", "bounded: threads x calls and preemption bound as stated per scenario"},
+		ID:           "C12",
+		Rule:         "E3 schedule explorer on the real code (stateless, depth-first, preemption-bounded; hand-written cooperative scheduler): k threads each perform m calls of Evaluate / Execute on ONE shared evaluator / filter (or create evaluators concurrently); the visible operations are the accesses hooked by the generated overlay (every read/write of a field of the packages' own struct types reached through a pointer, of a package-level variable, map element writes) and all sync / sync/atomic operations (shimmed). A site becomes a scheduling point when its address is touched by >=2 threads with >=1 write during the concurrent phase; exploration restarts until this hot set reaches a fixpoint. Scenarios: expressions with one and two matches / not matches nodes (also behind short-circuits, inside quantifiers, with unknown-value and hook options), ==, in, quantifiers; shared and distinct data; first use and steady state; 2x1, 2x2, 3x1 threads x calls with UNBOUNDED preemptions, 3x2 with preemption bound 2 (thorough 3). Oracle in every explored state: data race = two threads parked with enabled pending conflicting plain accesses to one address; every call's result equals the sequential result; deadlock = no enabled thread; a violating schedule is replayed twice and must reproduce. states = complete schedules executed, transitions = visible operations executed; non-trivial = schedules with at least one scheduling decision beyond thread order. Complement (sampling, not deciding): the same scenario bodies run free under `go build -race` without the overlay.",
+		Assumptions:  []string{"sequential consistency at hooked accesses and sync operations; accesses inside dependencies, weak-memory effects and goroutines started by the code under test are outside the model (the free-running -race pass is the stated complement)", "bounded: threads x calls and preemption bound as stated per scenario"},
 		Run:          runC12,
 		NeedsOverlay: "full",
 		Finalize:     c12Finalize,
@@ -68,6 +68,8 @@ func c12Scenarios(thorough bool) []c12Scenario {
 		{name: "hook 2x1", src: "w matches `a`", opts: Cfg{Tag: "bexpr", Hook: HookUnwrap}, threads: 2, ops: 1, data: mixed, bound: -1},
 		{name: "filter slice 2x1", src: "f matches `a+`", filter: true, threads: 2, ops: 1, data: []interface{}{cont}, bound: -1},
 		{name: "filter map 2x1", src: "f not matches `a`", filter: true, threads: 2, ops: 1, data: []interface{}{cont2, cont}, bound: -1},
+		{name: "filter arrays of two types 2x2", src: "f == `a`", filter: true, threads: 2, ops: 2, data: []interface{}{[2]map[string]interface{}{{"f": "a"}, {"f": "b"}}, [1]map[string]string{{"f": "a"}}, [3]fS{{F: "a"}, {F: 1}, {F: "a"}}}, bound: -1},
+		{name: "filter array first use 3x1", src: "f != `a`", filter: true, threads: 3, ops: 1, data: []interface{}{[2]map[string]interface{}{{"f": "a"}, {"f": "b"}}}, bound: -1},
 		{name: "no regexp 2x2", src: "s == `aaa` and `a` in l", threads: 2, ops: 2, data: mixed, bound: -1},
 		{name: "quantifier no regexp 3x1", src: "all l as i, x { x != `q` and i != 9 }", threads: 3, ops: 1, data: mixed, bound: -1},
 		{name: "steady state 3x2", src: "s matches `a+`", threads: 3, ops: 2, data: mixed, warm: true, bound: -1},
